@@ -322,6 +322,38 @@ def run_case(seed: int, idx: int, res: UnitResult) -> None:
         detail = {"why": why, "case": desc, "accepted": [show_timed(a) for a in alts[:4]], "observed": show_timed(actual)}
         detail.update(extra)
         res.violation("C15:%s" % op, detail, {"seed": seed, "idx": idx})
+    if why is None and op == "delay" and not case["hot"] and (P["shape"] != "abs" or P["d"] > 7) and idx % 2 == 0:
+        second_subscription_delay(case, res, seed, idx, desc)
+
+
+def second_subscription_delay(case: dict, res: UnitResult, seed: int, idx: int, desc: dict) -> None:
+    """delay(...) built ONCE and subscribed at SUB_AT and again a little later: every subscription must be shifted by the
+    requested time (a relative delay by d; an absolute due time by due - its own subscription time)."""
+    from ..vlab import Lab
+    P = case["P"]
+    off = 3.0 if idx % 4 == 0 else 7.0
+    lab = Lab(case["clock"])
+    src = lab.cold("s", list(case["tl"]))
+    first, second = lab.observer("first"), lab.observer("second")
+    holder: dict = {}
+
+    def sub1() -> None:
+        holder["o"] = build(case, lab, src)
+        first.subscribe_to(holder["o"])
+    lab.at(SUB_AT, sub1)
+    lab.at(SUB_AT + off, lambda: second.subscribe_to(holder["o"]))
+    lab.run()
+    if T.spun(lab):
+        return
+    d2 = P["d"] - off if P["shape"] == "abs" else P["d"]
+    seen2 = [(SUB_AT + off + t, k, v) for (t, k, v) in case["tl"]]
+    alts2 = model_delay(seen2, d2)
+    res.count("second_subscriptions_checked")
+    why2 = T.match_any(alts2, second.timed())
+    if why2 is not None:
+        res.violation("C15:delay:second-subscription", {"why": why2, "case": desc, "second_subscribed_at": SUB_AT + off,
+                                                        "accepted": [show_timed(a) for a in alts2[:3]], "observed": show_timed(second.timed())},
+                      {"seed": seed, "idx": idx})
 
 
 def run_unit(unit: dict, res: UnitResult) -> None:
